@@ -31,6 +31,7 @@ pub fn stack_cases(args: &Args, prop: SProp, ncases: u64, stream: u64, with_time
     acc.count("stack_set_changes_in_model", out.set_changes);
     acc.count("stack_losses_by_timeout", out.losses_by_timeout);
     acc.count("stack_losses_by_dispose", out.losses_by_dispose);
+    acc.count("stack_local_endpoints_created_during_the_scenario", out.late_locals);
     if out.aborted {
       acc.count("stack_scenarios_aborted", 1);
     } else {
@@ -48,7 +49,7 @@ pub fn stack_cases(args: &Args, prop: SProp, ncases: u64, stream: u64, with_time
 pub fn run_c11(args: &Args) -> i32 {
   let mut rep = Report::new(
     args,
-    "one real DomainParticipant (2 topics, a DataReader and a DataWriter on each, QoS from a small palette) against 2-3 harness-controlled remote participants speaking SPDP/SEDP on real loopback UDP; random histories {participant appears, endpoint announced / re-announced / disposed, dispose of unknown endpoint, participant disposed, participant reappears and re-announces}; after every event a logical barrier (a marker endpoint announced on the same SEDP stream must be matched) and then the status events drained through the public API are compared with the model set = announced and participant alive and same topic and QoS-compatible (C10 reference table); distinct = hash of scenario; non-trivial = >=2 set changes",
+    "one real DomainParticipant (2 topics, 3 DataReaders and 2 DataWriters at the start, up to 2 more created while the scenario runs, QoS from a small palette) against 2-3 harness-controlled remote participants speaking SPDP/SEDP on real loopback UDP; random histories {participant appears, endpoint announced / re-announced / disposed, dispose of unknown endpoint, participant disposed, participant reappears and re-announces, the application creates one more local reader / writer}; after every event a logical barrier (a marker endpoint announced on the same SEDP stream must be matched) and then the status events drained through the public API are compared with the model set = announced and participant alive and same topic and QoS-compatible (C10 reference table); distinct = hash of scenario; non-trivial = >=2 set changes",
   );
   rep.assume("a remote endpoint keeps the QoS it was announced with; a reappearing participant re-announces its endpoints (the statement does not say whether endpoints of a rediscovered participant count as announced before that)");
   rep.assume("a barrier that is not reached within 6 s makes the scenario inconclusive, never a violation; at most 4 status events per local endpoint and step (status channel capacity)");
